@@ -31,9 +31,9 @@ def SH(fields, sub=None):
     return {"fields": fields, "sub": sub}
 
 
-def SUB(optional, cmds):
-    """cmds: list of (kebab-name, None | shape)"""
-    return {"optional": optional, "cmds": cmds}
+def SUB(optional, cmds, docs=()):
+    """cmds: list of (kebab-name, None | shape); docs: names of the variants that carry a doc comment in the Rust enum"""
+    return {"optional": optional, "cmds": cmds, "docs": set(docs)}
 
 
 SHAPES = [
@@ -64,6 +64,12 @@ SHAPES = [
     ("s14", SH([])),
     ("s15", SH([P("src", "str", arg="INPUT"), O("v", "bool", short="v"), P("n", "int", "opt", arg="count")])),
     ("s16", SH([P("first", "str", arg="second"), P("second", "str", "opt", arg="first")])),
+    # documented / undocumented variants in every neighbourhood (unit before documented unit, before documented payload, ...)
+    ("s17", SH([O("v", "bool", short="v")],
+               SUB(False, [("alpha", None), ("beta", None), ("gamma", SH([P("n", "int", "opt")])), ("delta", None),
+                           ("epsilon", SH([O("k", "str", "opt", long="k")])), ("zeta", None), ("eta", None)],
+                   docs=("beta", "gamma", "epsilon", "eta")))),
+    ("s18", SH([], SUB(True, [("one", None), ("two", None), ("three", None)], docs=("one", "two", "three")))),
 ]
 SHAPE = dict(SHAPES)
 
@@ -159,6 +165,8 @@ def gen_rust():
             out.append("#[derive(Subcommand)]")
             out.append("pub enum %s {" % en)
             for (n, inner) in sh["sub"]["cmds"]:
+                if n in sh["sub"]["docs"]:
+                    out.append("    /// The %s command" % n)
                 out.append("    %s," % (pascal(n) if inner is None else "%s(%s%s)" % (pascal(n), sname, pascal(n))))
             out.append("}")
             out.append("impl %s {" % en)
@@ -604,8 +612,13 @@ def mutate(r, sid, args):
         a[r.below(n)] = b""
         return "empty", a
     if k == 6:
-        big = r.choice([b"a" * 10240, b"-" + b"b" * 10239, b"\xc3\xa9" * 5120, b"\"" * 10240, b"a" * 90, b"a" * 95, b"a" * 96, b"a" * 97,
-                        b"a" * 98, b"a" * 99, b"a" * 101, b"\n" * 50, b"\x01" * 20, b"x" * 127, b"x" * 128, b"x" * 129])
+        if r.chance(1, 3):
+            # valid multi-byte UTF-8 around the 128-byte cause buffer: byte length and character count differ
+            unit = r.choice([b"\xc3\xa9", b"\xe2\x82\xac", b"\xf0\x9f\x98\x80", b"a\xe2\x82\xac", b"\xc3\xa9b"])
+            big = unit * r.range(15, 110) + r.choice([b"", b"a", b"zz"])
+        else:
+          big = r.choice([b"a" * 10240, b"-" + b"b" * 10239, b"\xc3\xa9" * 5120, b"\"" * 10240, b"a" * 90, b"a" * 95, b"a" * 96, b"a" * 97,
+                          b"a" * 98, b"a" * 99, b"a" * 101, b"\n" * 50, b"\x01" * 20, b"x" * 127, b"x" * 128, b"x" * 129])
         if n and r.chance(1, 2):
             a[r.below(n)] = big
         else:
